@@ -273,6 +273,10 @@ class ModelClient:
         estimand_baselines = config_handler.get_estimand_baselines(self.office, estimands)
 
         LOG.info("Getting preprocessed data: %s", self.election_id)
+        if preprocessed_data is not None:
+            # the handler adds baseline and weight columns in place. Work on a copy, since otherwise a caller passing
+            # the same dataframe to the next run would get the weights that belong to this run's estimands
+            preprocessed_data = preprocessed_data.copy()
         preprocessed_data_handler = PreprocessedDataHandler(
             self.election_id,
             self.office,
